@@ -109,6 +109,44 @@ def compare(ctx, batch):
             ctx.divergence(case, diff, 'see impl', 'Model/Validate.v final cache = cell_map values after validate_calcs')
 
 
+def close_enough_leg(ctx):
+    """_CellBase.close_enough against its hand transcription (Model/Validate.v close_enough): numbers (int, float,
+    logical), text, blank x tolerance None / positive / zero / negative; the alterations are powers of two times the
+    value or simple multiples of the tolerance, far from the (1 + 1e-5) * tol and 1e-5 / 1e-8 boundaries, so that
+    the exact-rational model and the float implementation must agree."""
+    import types
+    from pycel.excelcompiler import _CellBase
+    rng = ctx.rng
+    calls, meta = [], []
+    nums = [0, 1, 2, 3, 7, -4, 10, 1000, 12345, 0.5, 2.25, -1.5, 1024.0, True, False]
+    others = ['', 'a', 'zz', '#VALUE!', '12', None]
+    for _ in range(ctx.n(400, 4000)):
+        tol = rng.choice([None, None, 0.001, 1, 0.5, 2, 0, -1])
+        a = rng.choice(nums + others) if rng.random() < 0.85 else rng.choice(others)
+        if isinstance(a, (int, float)) and rng.random() < 0.85:
+            base = float(a) if not isinstance(a, bool) else int(a)
+            if tol:
+                b = base + rng.choice([0, tol / 2, -tol / 2, tol, 2 * tol, -2 * tol, 1.5 * tol, tol / 4])
+            else:
+                b = base + rng.choice([0, base * 2.0 ** -30, base * 2.0 ** -20, -base * 2.0 ** -20, base * 2.0 ** -10,
+                                       1, -1, 2.0 ** -30, 2.0 ** -20, -2.0 ** -30])
+            if rng.random() < 0.1:
+                b = rng.choice(others)
+        else:
+            b = rng.choice(nums + others)
+        try:
+            got = bool(_CellBase.close_enough(types.SimpleNamespace(value=a), b, tol=tol))
+        except Exception as exc:     # noqa: BLE001
+            got = ('raise', type(exc).__name__)
+        calls.append(('close_enough', [enc_tol(tol), enc_val(a), enc_val(b)]))
+        meta.append((dict(call='close_enough', args=[a, b, tol]), got))
+    for (case, got), ans in zip(meta, ctx.model.batch(calls)):
+        ctx.count(('close', repr(case['args'])), kind='correspondence:close_enough')
+        m = dec_val(ans) if isinstance(ans, list) and ans and ans[0] == 1 else ('bad', ans)
+        if m != got:
+            ctx.divergence(case, got, m, 'Model/Validate.v close_enough = _CellBase.close_enough')
+
+
 def ancestors(wb, n):
     out, stack = set(), list(wb.nodes[n]['deps'])
     while stack:
@@ -238,6 +276,7 @@ def run(ctx):
             ctx.broke('harness: correspondence-only stream failed', repr(exc))
     if ctx.model:
         compare(ctx, batch)
+        close_enough_leg(ctx)
     # ---- cells that cannot be evaluated are reported, not skipped
     for k in range(ctx.n(10, 100)):
         wb = wbgen.gen_workbook(rng, ncells=rng.randrange(4, 8), pool=wbgen.CLEAN_POOL)
